@@ -94,7 +94,7 @@ Print Assumptions c11_scalar_ops.
 Theorem c11_transpose : forall (T : Type) (d : T) (a : arr T), Inv a ->
   exists t, transpose a = Ok t /\ Inv t /\ height t = width a /\ width t = height a /\
     forall i j, i < width a -> j < height a -> get d t i j = get d a j i.
-Proof. exact @Proofs.Arr2DDot.transpose_spec. Qed.
+Proof. exact @Proofs.Arr2D.transpose_spec. Qed.
 Check c11_transpose : forall (T : Type) (d : T) (a : arr T), Inv a ->
   exists t, transpose a = Ok t /\ Inv t /\ height t = width a /\ width t = height a /\
     forall i j, i < width a -> j < height a -> get d t i j = get d a j i.
